@@ -11,7 +11,8 @@ _GEN = ("Decides the structural clauses listed in DESIGN.md section 5 for this p
         "independently produced seeded regressions and benign refactorings of this property. Every check also confirms on every "
         "run the schema its rules read the code through (each getter returns exactly its slot, ndim / centre / edges are the "
         "documented expressions, _dim2index is the position in dims, array2tuple keeps coordinate order; DESIGN.md 13.6) and "
-        "uses a class invariant in a condition only after confirming it from the source (13.3). ")
+        "uses a class invariant in a condition only after confirming it from the source (13.3). The check of a property also "
+        "evaluates the rule instances that other properties have on the helper functions its anchored functions reach (13.7). ")
 
 CLAIMS = {
     "C08": {
